@@ -545,10 +545,10 @@ def auto_helpers(repo, rel, within, c_text, known, rewrite, ctype=None, max_roun
         for nm in calls:
             seen.add(nm)
             try:
-                b = find_body(repo, rel, r'(?:YACLIB_INLINE\s+|static\s+|inline\s+|\[\[nodiscard\]\]\s+)*(?:void|bool|auto\s*\*?|[\w:]+\s*[*&]?)\s+' + nm + r'\s*\((?:[^()]|\([^()]*\))*\)\s*(?:const\s*)?(?:noexcept\s*)?', nm, within=within)
+                b = find_body(repo, rel, r'(?:YACLIB_INLINE\s+|static\s+|inline\s+|\[\[nodiscard\]\]\s+)*(?:void|bool|auto\s*\*?|[\w:]+(?:<[^<>()]*>)?\s*[*&]?)\s+' + nm + r'\s*\((?:[^()]|\([^()]*\))*\)\s*(?:const\s*)?(?:noexcept\s*)?', nm, within=within)
             except EB:
                 continue
-            m = re.match(r'\s*(?:YACLIB_INLINE\s+|static\s+|inline\s+|\[\[nodiscard\]\]\s+)*(void|bool|auto\s*\*?|[\w:]+\s*[*&]?)\s+' + nm + r'\s*\(((?:[^()]|\([^()]*\))*)\)', b.sig)
+            m = re.match(r'\s*(?:YACLIB_INLINE\s+|static\s+|inline\s+|\[\[nodiscard\]\]\s+)*(void|bool|auto\s*\*?|[\w:]+(?:<[^<>()]*>)?\s*[*&]?)\s+' + nm + r'\s*\(((?:[^()]|\([^()]*\))*)\)', b.sig)
             if not m:
                 continue
             ret = m.group(1).replace(' ', '')
